@@ -28,53 +28,9 @@ import threading
 from ..core import LEAN, REPO, Prop, Violation, import_repo, write_if_changed
 from ..extract import e3_metabolism, e5_metabolism, py2lean_metabolism
 from ..util import Sched, SLock, burst_schedule
+from ..atpbg import Background
 
 CURS = ["atp", "gtp", "nadh"]
-
-
-class _TickDone(BaseException):
-    """raised by the fake sleep / Event.wait at the start of the SECOND pass of a background loop: one `tick` = one pass"""
-
-
-class _FakeThread:
-    """what `threading.Thread(...)` returns to the module under test: the target is captured and never started on its own
-    (the harness runs single passes of it as `tick` calls of a scheduled thread)"""
-
-    def __init__(self, owner, group=None, target=None, name=None, args=(), kwargs=None, daemon=None):
-        self.target, self.args, self.kwargs, self.daemon, self.name = target, tuple(args), dict(kwargs or {}), daemon, name
-        self.started = False
-        owner._created.append(self)
-
-    def start(self):
-        self.started = True
-
-    def join(self, timeout=None):
-        return None
-
-    def is_alive(self):
-        return False
-
-
-class _FakeEvent:
-    """`threading.Event` for the module under test; a wait with the flag clear counts as the loop's sleep"""
-
-    def __init__(self, owner):
-        self.owner, self.flag = owner, False
-
-    def is_set(self):
-        return self.flag
-    isSet = is_set
-
-    def set(self):
-        self.flag = True
-
-    def clear(self):
-        self.flag = False
-
-    def wait(self, timeout=None):
-        if not self.flag:
-            self.owner._slept()
-        return self.flag
 
 
 class RecLock(SLock):
@@ -109,8 +65,10 @@ class C05(Prop):
         "preemption inside a line is not exhibited",
         "region bodies are the sequential functions of Operon.Model.Atp, proved equal to the functions translated from the source "
         "on every run (c05_region_bodies_are_the_translated_source) and validated against the code by C04's correspondence",
-        "apply_debt_interest (runs without the lock, not in the property's operation list) and the background "
-        "regeneration thread are outside the model",
+        "apply_debt_interest (runs without the lock, not in the property's operation list) is outside the model",
+        "the background regeneration thread of a store with regeneration_rate > 0 is captured, not started: its loop body "
+        "runs pass by pass as `tick` calls of scheduled threads (one pass = regenerate(int(rate)) = Operon.AtpConc.tickAct); "
+        "real-time sleeping is not exhibited",
     ]
     trusted_modelled = [
         "extractor E3 (lockshape/e3_metabolism): region structure of consume/regenerate/convert/transfer_to, regenerated each run",
@@ -124,51 +82,11 @@ class C05(Prop):
         self.M = M
         self.target = M.__file__
         self.seq_cache = {}
-        self._created = []          # _FakeThread objects made by the module under test, in creation order
-        self._loops = {}            # id(store) -> its background loop (_FakeThread)
-        self._ticking = {}          # thread ident -> sleeps seen in the current tick
-        self._observers, self._rates = [], {}
-        prop = self
-        import time as _time
-
-        class FakeTime:
-            """`time` as seen by the module under test: sleeping costs nothing; inside a tick the second sleep ends the pass"""
-            def __getattr__(self2, k):
-                return getattr(_time, k)
-
-            def sleep(self2, secs):
-                prop._slept()
-        if hasattr(M, "time"):
-            M.time = FakeTime()
-
-    def _slept(self):
-        k = threading.get_ident()
-        if k in self._ticking:
-            self._ticking[k] += 1
-            if self._ticking[k] >= 2:
-                raise _TickDone()
+        self._observers, self._rates, self._pre = [], {}, []
+        self.bg = Background(M)     # the background regeneration loop is captured, `tick` calls run single passes of it
 
     def _fake_threading(self, lock_factory):
-        prop = self
-
-        class FakeThreading:
-            """`threading` as seen by the module under test: every Lock/RLock it creates, at any time, is the harness's (a
-            lock created lazily by the first caller must not escape the scheduler); threads are captured, not started"""
-            def __getattr__(self2, k):
-                return getattr(threading, k)
-
-            def Lock(self2):
-                return lock_factory(False)
-
-            def RLock(self2):
-                return lock_factory(True)
-
-            def Thread(self2, *a, **kw):
-                return _FakeThread(prop, *a, **kw)
-
-            def Event(self2):
-                return _FakeEvent(prop)
-        return FakeThreading()
+        return self.bg.fake_threading(lock_factory)
 
     def extract(self, ctx):
         facts = e3_metabolism.extract(REPO)
@@ -325,7 +243,7 @@ class C05(Prop):
     def _mk_stores(self, specs, setatp, observers=None):
         M = self.M
         st = []
-        self._loops = {}
+        self.bg.loops.clear()
         observers = self._observers if observers is None else observers
 
         class ObserverFault(Exception):
@@ -342,13 +260,10 @@ class C05(Prop):
             if j in self._rates:
                 num, den = self._rates[j]
                 kw["regeneration_rate"] = num / den
-            k0 = len(self._created)
+            k0 = self.bg.mark()
             st.append(M.ATP_Store(b, gtp_budget=g, nadh_reserve=n, max_debt=md, silent=True,
                                   on_state_change=None if o is None else mk_obs(o[1], o[2]), **kw))
-            made = [th for th in self._created[k0:] if th.started]
-            del self._created[:]
-            if made:
-                self._loops[id(st[-1])] = (st[-1], made[0])
+            self.bg.capture(st[-1], k0)
         for j, v in setatp:
             st[j].atp = v
         return st
@@ -366,18 +281,7 @@ class C05(Prop):
         if t[0] == "xfer":
             return stores[int(t[1])].transfer_to(stores[int(t[2])], int(t[3]), E[t[4]])
         if t[0] == "tick":
-            ent = self._loops.get(id(stores[int(t[1])]))
-            if ent is None or ent[0] is not stores[int(t[1])]:
-                return None
-            k = threading.get_ident()
-            self._ticking[k] = 0
-            try:
-                ent[1].target(*ent[1].args, **ent[1].kwargs)
-            except _TickDone:
-                pass
-            finally:
-                self._ticking.pop(k, None)
-            return None
+            return self.bg.tick(stores[int(t[1])])
         raise ValueError(call)
 
     def _call(self, stores, call):
